@@ -117,6 +117,18 @@ let parse_msg_rules t : (str * overrides) list =
              [ (k, { ov_mailboxes = opt_list mb; ov_from = opt_str from; ov_to = opt_list to_; ov_subject = opt_str subj }) ]
          | _ -> failwith ("bad msg rule " ^ v))) (split ',' t))
 
+(* the assembled-system stream reads the store through the REST API: subject, size, source *)
+let show_store_asm (ds : delivery list) : string =
+  let st = store_after [] ds in
+  let boxes = List.map (fun (name, ms) ->
+    (raw_of_str name,
+     String.concat "/" (List.map (fun d ->
+       let src = raw_of_str (stored_source d.d_retpath d.d_helo ip domain d.d_mailbox d.d_body) in
+       String.concat ":" [ field_of_str d.d_subject; string_of_int (String.length src); Mlutil.hex src ]) ms))) st in
+  let boxes = List.sort (fun (a, _) (b, _) -> compare a b) boxes in
+  if boxes = [] then "-" else
+  String.concat "," (List.map (fun (n, ms) -> Mlutil.hex n ^ "=" ^ ms) boxes)
+
 let sort_within (dump : string) : string =
   if dump = "-" then dump else
   String.concat "," (List.map (fun b ->
@@ -198,6 +210,7 @@ let handle_smtp (kind : string) (ins : string list) (outs : string list) : bool 
                  | _ -> ()) dlg) streams;
              if status <> "ok" then add "C03:session-error";
              let norm d = if par then sort_within d else d in
+             let show_store = if kind = "asm" then show_store_asm else show_store in
              if norm (show_store !ent_all) <> dump then begin
                add "C01:store-differs-from-what-the-dialogue-entitles";
                add "C03:partial-phantom-or-misrouted-message";
